@@ -1,5 +1,6 @@
 #!/bin/sh
 # usage: tools/seedtest.sh <patch.diff> <Cxx> [Cyy ...]   -- apply a seeded change to /repo, run the quick checks, undo it
+export VERIF_EVIDENCE_DIR=${VERIF_EVIDENCE_DIR:-/tmp/verif-seed-evidence}; mkdir -p "$VERIF_EVIDENCE_DIR"
 patch=$(realpath $1); shift
 git -C /repo status --short | grep -q . && { echo "/repo not clean"; exit 2; }
 git -C /repo apply "$patch" || exit 2
